@@ -38,6 +38,7 @@ type Expected struct {
 	Consumed    []bool           // per argv index: wholly consumed as option / value / command name / reached terminator
 	Hits        map[string][]int // "ownerPath\x1fprimaryName" -> argv indices of the tokens that addressed the option
 	LevelAt     []string         // per argv index: path of the level at which the token was interpreted ("" = not reached)
+	TermAsValue int              // number of `--` tokens taken as a still-missing mandatory value
 	Decisions   int              // number of greedy lookahead decisions taken (for non-triviality rules)
 	Descents    int
 	// Dispatch expectation (valid when !Fail)
@@ -502,7 +503,8 @@ LOOP:
 						}
 						switch TokClass(argv[i+1]) {
 						case "term":
-							return unspec("-- in mandatory value position")
+							// C04: a `--` standing where a mandatory value is still missing is taken as that value
+							exp.TermAsValue++
 						case "odd":
 							return unspec("odd dash token in value position")
 						case "opt":
@@ -511,6 +513,7 @@ LOOP:
 						}
 						i++
 						exp.Consumed[i] = true
+						exp.LevelAt[i] = cur.Path
 						v = argv[i]
 					}
 					ok, us := save(o, st, v, true)
@@ -581,7 +584,7 @@ LOOP:
 						}
 						switch TokClass(argv[i+1]) {
 						case "term":
-							return unspec("-- in mandatory value position")
+							exp.TermAsValue++
 						case "odd":
 							return unspec("odd dash token in value position")
 						case "opt":
@@ -590,6 +593,7 @@ LOOP:
 						}
 						i++
 						exp.Consumed[i] = true
+						exp.LevelAt[i] = cur.Path
 						ok, us := save(o, st, argv[i], true)
 						if us != "" {
 							return unspec(us)
